@@ -1,5 +1,6 @@
 import TongoModel.BitOps
 import TongoProofs.Lemmas.BitStringRound
+import TongoProofs.Lemmas.MinBitsGen
 /-! Property C06 — bit-string and cell read/write primitives behave like an ideal bit list.
 Property theorems only; helper lemmas live in `TongoProofs/Lemmas/BitString*.lean`.
 
@@ -89,6 +90,17 @@ theorem writeUnary_is_bits (n : Nat) : writeUnary n = writeBitArray (List.replic
 /-- `minBitsRequired_eq`: the de Bruijn multiplication and table lookup equals the bit length for every uint64. -/
 theorem minBitsRequired_eq (v : Nat) (hv : v < 2 ^ 64) : minBitsRequired v = Ideal.bitLength v :=
   minBitsRequired_eq_bitLength v hv
+
+/-- tie: the definition of `minBitsRequired` REGENERATED from boc/bitString.go on every run (translator X4, `BitVec 64`,
+table `tab64` and multiplier included) computes the hand model — a change of the table, the multiplier or the shifts in
+the Go source breaks this equation. -/
+theorem gen_minBitsRequired (x : BitVec 64) : (Gen.MinBits.minBitsRequired x).toNat = minBitsRequired x.toNat :=
+  gen_minBitsRequired_eq x
+
+/-- hence the Go function, as regenerated, is the bit length for all 2^64 arguments -/
+theorem gen_minBitsRequired_is_bitLength (x : BitVec 64) :
+    (Gen.MinBits.minBitsRequired x).toNat = Ideal.bitLength x.toNat := by
+  rw [gen_minBitsRequired_eq, minBitsRequired_eq_bitLength _ x.isLt]
 
 /-- `WriteLimUint(v, n)` writes `v` on `bitlen n` bits. -/
 theorem writeLimUint_is_bits (v n : Nat) (hn : n < 2 ^ 64) :
